@@ -13,7 +13,9 @@ that Props/C19.lean and Props/C19c.lean left to the general theorem `C19_corrupt
                                 …_input_symbol_foreign, …_input_symbols_all
   TM row keyed by a non-state   C19_{dtm,ntm,mntm}_corrupt_row_key   (whatever the row contains)
   TM initial state without row  C19_{dtm,ntm,mntm}_corrupt_initial_row
-  GNFA shape rules              C19_gnfa_corrupt_initial_equals_final(') , C19_gnfa_corrupt_missing_row,
+  field-level, DTM-only so far  C19_{ntm,mntm}_corrupt_initial_is_final, C19_mntm_corrupt_blank
+  MNTM tape count in one entry  C19_mntm_corrupt_entry_tape_count
+  GNFA shape rules              C19_gnfa_corrupt_initial_equals_final('), C19_gnfa_corrupt_missing_row,
                                 C19_gnfa_corrupt_missing_entry, C19_gnfa_corrupt_final_row,
                                 C19_gnfa_corrupt_into_initial
 
@@ -826,6 +828,107 @@ def exDTM1 : DTM Nat Nat :=
   { states := [0], syms := [0], tapeSyms := [0, 9], trans := [], init := 0, blank := 9, finals := [] }
 
 example : exDTM1.validate = .ok () := by decide
+
+/-! ### field-level TM operators that existed for the DTM only -/
+
+/-- NTM / the initial state made final → `InitialStateError` (the `FinalStateError` its row would
+cause is checked later). -/
+theorem C19_ntm_corrupt_initial_is_final (d : NTM σ γ) (wf : d.WF) :
+    ({ d with finals := d.init :: d.finals } : NTM σ γ).validate = .error (.lib .initialStateError) := by
+  have hno := (NTM.wf_iff d).mp wf
+  refine NTM.rules_correct.corrupt_raises _ .initialIsFinal (by simp [NTM.rules]) ?_
+  intro r' hv'
+  cases r' <;> first
+    | exact Or.inl rfl
+    | exact absurd hv' (hno .inputNotProperSubset)
+    | exact absurd hv' (hno .badBlank)
+    | exact absurd hv' (hno .unknownTransitionState)
+    | exact absurd hv' (hno .badReadSymbol)
+    | exact absurd hv' (hno .unknownResultState)
+    | exact absurd hv' (hno .badWriteSymbol)
+    | exact absurd hv' (hno .badDirection)
+    | exact absurd hv' (hno .badInitial)
+    | exact absurd hv' (hno .initialNoRow)
+    | (right; rw [NTM.rules_stage]; decide)
+
+/-- MNTM / the initial state made final → `InitialStateError`. -/
+theorem C19_mntm_corrupt_initial_is_final (d : MNTM σ γ) (wf : d.WF) :
+    ({ d with finals := d.init :: d.finals } : MNTM σ γ).validate = .error (.lib .initialStateError) := by
+  have hno := (MNTM.wf_iff d).mp wf
+  refine MNTM.rules_correct.corrupt_raises _ .initialIsFinal (by simp [MNTM.rules]) ?_
+  intro r' hv'
+  cases r' <;> first
+    | exact Or.inl rfl
+    | exact absurd hv' (hno .inputNotProperSubset)
+    | exact absurd hv' (hno .badBlank)
+    | exact absurd hv' (hno .unknownTransitionState)
+    | exact absurd hv' (hno .badReadSymbol)
+    | exact absurd hv' (hno .unknownResultState)
+    | exact absurd hv' (hno .badWriteSymbol)
+    | exact absurd hv' (hno .badDirection)
+    | exact absurd hv' (hno .badInitial)
+    | exact absurd hv' (hno .initialNoRow)
+    | (right; rw [MNTM.rules_stage]; decide)
+
+/-- MNTM / blank symbol outside the tape alphabet → `InvalidSymbolError`. -/
+theorem C19_mntm_corrupt_blank (d : MNTM σ γ) (wf : d.WF) (b : γ) (hb : b ∉ d.tapeSyms) :
+    ({ d with blank := b } : MNTM σ γ).validate = .error (.lib .invalidSymbolError) := by
+  have hno := (MNTM.wf_iff d).mp wf
+  refine MNTM.rules_correct.corrupt_raises _ .badBlank hb ?_
+  intro r' hv'
+  cases r' <;> first
+    | exact Or.inl rfl
+    | exact absurd hv' (hno .inputNotProperSubset)
+    | (right; rw [MNTM.rules_stage]; decide)
+
+/-- MNTM / **bad tape count inside one entry**: in a valid MNTM, `transitions[q][rd] = rs` with legal
+symbols, states and directions, but a read tuple or a move tuple whose length is not `n_tapes` →
+`InconsistentTapesException` (the last check: nothing else may be wrong). -/
+theorem C19_mntm_corrupt_entry_tape_count (d : MNTM σ γ) (wf : d.WF)
+    (kv : σ × List (List γ × List (σ × List (γ × String)))) (hkv : kv ∈ d.trans)
+    (rd : List γ) (hrd : ∀ s ∈ rd, s ∈ d.tapeSyms) (rs : List (σ × List (γ × String)))
+    (hok : ∀ r ∈ rs, ∀ mv ∈ r.2,
+      TmResultOk d.states d.tapeSyms Gen.Validate.ntmDirections (r.1, mv.1, mv.2))
+    (hbad : (rd.length : Int) ≠ d.nTapes ∨ ∃ r ∈ rs, (r.2.length : Int) ≠ d.nTapes) :
+    (MNTM.setEntry d kv.1 rd rs).validate = .error (.lib .inconsistentTapesException) := by
+  have hno := (MNTM.wf_iff d).mp wf
+  obtain ⟨l0, l1, l2, l3, l4⟩ := mntm_setEntry_loop d wf kv.1 rd rs
+  have hkeys : akeys (MNTM.setEntry d kv.1 rd rs).trans = akeys d.trans := editRow_keys _ _ _
+  have hmem : (kv.1, ainsert rd rs kv.2) ∈ (MNTM.setEntry d kv.1 rd rs).trans :=
+    editRow_mem kv.1 (ainsert rd rs) d.trans kv hkv rfl
+  have hv : MNTM.rules.Violates (MNTM.setEntry d kv.1 rd rs) .badTapeCount := by
+    rcases hbad with h | ⟨r, hr, h⟩
+    · exact Or.inl ⟨_, hmem, (rd, rs), ainsert_mem_self rd rs kv.2, h⟩
+    · exact Or.inr ⟨_, hmem, (rd, rs), ainsert_mem_self rd rs kv.2, r, hr, h⟩
+  refine MNTM.rules_correct.corrupt_raises _ .badTapeCount hv ?_
+  intro r' hv'
+  cases r'
+  case inputNotProperSubset => exact absurd hv' (hno .inputNotProperSubset)
+  case badBlank => exact absurd hv' (hno .badBlank)
+  case unknownTransitionState => exact (l0 hv').elim
+  case badReadSymbol => obtain ⟨x, hx, hn⟩ := l1 hv'; exact absurd (hrd x hx) hn
+  case unknownResultState => obtain ⟨x, hx, m, hm, hn⟩ := l2 hv'; exact absurd (hok x hx m hm).1 hn
+  case badWriteSymbol => obtain ⟨x, hx, m, hm, hn⟩ := l3 hv'; exact absurd (hok x hx m hm).2.1 hn
+  case badDirection => obtain ⟨x, hx, m, hm, hn⟩ := l4 hv'; exact absurd (hok x hx m hm).2.2 hn
+  case badInitial => exact absurd hv' (hno .badInitial)
+  case initialNoRow =>
+    obtain ⟨h1, h2⟩ := hv'
+    rw [hkeys] at h1
+    exact (hno .initialNoRow ⟨h1, h2⟩).elim
+  case initialIsFinal => exact absurd hv' (hno .initialIsFinal)
+  case badFinal => exact absurd hv' (hno .badFinal)
+  case finalHasTransitions =>
+    obtain ⟨f, hf, hk⟩ := hv'
+    rw [hkeys] at hk
+    exact (hno .finalHasTransitions ⟨f, hf, hk⟩).elim
+  case badTapeCount => exact Or.inl rfl
+
+example : (MNTM.setEntry exMNTM 0 [9, 0, 0] [(1, [(0, "R"), (9, "N")])]).validate =
+    .error (.lib .inconsistentTapesException) := by decide
+example : (MNTM.setEntry exMNTM 0 [9, 0] [(1, [(0, "R"), (9, "N")]), (0, [(0, "R")])]).validate =
+    .error (.lib .inconsistentTapesException) := by decide
+example : ({ exNTM with finals := [0, 2] } : NTM Nat Nat).validate = .error (.lib .initialStateError) := by decide
+example : ({ exMNTM with blank := 5 } : MNTM Nat Nat).validate = .error (.lib .invalidSymbolError) := by decide
 
 /-! ## GNFA: the shape rules -/
 
